@@ -395,6 +395,12 @@ func (mr *modelRun) runDAG(p *Plan, path, statePath string, in M) (M, string) {
 				missing = true
 			}
 			return M{e.From + "_v": v[k]}
+		case MapNested:
+			inner, _ := v[e.From].(M)
+			if _, ok := inner[e.From]; !ok {
+				missing = true
+			}
+			return M{e.From + "_v": inner[e.From]}
 		}
 		return v
 	}
